@@ -104,6 +104,27 @@ pub fn c16(tier: &str, seed: u64) -> Vec<Case> {
         }
         v.push(c);
     }
+    // structure-level twins: the same character-strings in another order, or with one repeated, are other TXT values (the
+    // order of the strings is on the wire) - they must not compare equal, and if they ever do they must hash alike
+    for k in 0..(if thorough { 200 } else { 30 }) {
+        let strings: Vec<Vec<u8>> = match k % 3 { 0 => vec![b"version=1".to_vec(), b"path=/".to_vec()], 1 => vec![b"a".to_vec(), b"b".to_vec(), b"c".to_vec()], _ => (0..g.rng.range(2, 4)).map(|_| g.cs_bytes()).collect() };
+        let mut permuted = strings.clone();
+        permuted.rotate_left(1);
+        let mut repeated = strings.clone();
+        repeated.push(strings[0].clone());
+        let mk = |ss: &Vec<Vec<u8>>| { let mut t = rdata::TXT::new(); for x in ss { t.add_char_string(crate::gen::mk_cs(x)); } ResourceRecord::new(Name::new_unchecked("t.local"), CLASS::IN, 5, RData::TXT(t)) };
+        let a = mk(&strings);
+        for (what, other) in [("permuted", mk(&permuted)), ("repeated", mk(&repeated))] {
+            let (eq, heq) = (a == other, h(&a) == h(&other));
+            let mut set = HashSet::new();
+            set.insert(a.clone());
+            let mut c = Case::new(format!("hash.rr {} {}", text::rr(&a), text::rr(&other)), format!("{} {}", eq as u8, heq as u8)).tag("hash.rr").tag("txt-twins");
+            if eq && !heq { c = c.fail("eq-hash", format!("TXT records with the same strings {} compare equal and hash differently", what)); }
+            if eq != set.contains(&other) { c = c.fail("hashset-lookup", format!("TXT {}", what)); }
+            if eq && permuted != strings && what == "permuted" && plain_bytes(&a) != plain_bytes(&other) { c = c.fail("eq-hash", "TXT records that serialise differently compare equal".into()); }
+            v.push(c);
+        }
+    }
     // values in states the public fields allow but no parser produces: NSEC windows out of order or
     // repeated, OPT option codes repeated (the copy must be the same value: equal, same hash, same bytes)
     for k in 0..(if thorough { 400 } else { 40 }) {
